@@ -175,6 +175,26 @@ func (c02Suite) Gen(rng *Rng, tier string, w *bufio.Writer, stats *Stats) {
 		emit("fragment:s2cw", fg.chainWhereQuery(), 0, 0)
 		stats.Inc("fragment.s2cw")
 	}
+	for i := 0; i < nfrag/2; i++ {
+		emit("fragment:s1o", fg.orderPropQuery(), 0, 0)
+		stats.Inc("fragment.s1o")
+	}
+	for i := 0; i < nfrag/2; i++ {
+		emit("fragment:s1d", fg.distinctQuery(), 0, 0)
+		stats.Inc("fragment.s1d")
+	}
+	for i := 0; i < nfrag/2; i++ {
+		emit("fragment:s3a", fg.withQuery(), 0, 0)
+		stats.Inc("fragment.s3a")
+	}
+	for i := 0; i < nfrag/2; i++ {
+		emit("fragment:s2x", fg.crossHopQuery(), 0, 0)
+		stats.Inc("fragment.s2x")
+	}
+	for i := 0; i < nfrag/2; i++ {
+		emit("fragment:s3b", fg.withHopQuery(), 0, 0)
+		stats.Inc("fragment.s3b")
+	}
 	for _, k := range []string{"", ":NodeKind1", ":NodeKind2", ":NodeKind1:NodeKind2", ":NodeKind2:NodeKind1"} {
 		emit("fragment:count", "match (n"+k+") return count(n)", 0, 0)
 		stats.Inc("fragment.count")
